@@ -5,9 +5,9 @@ import ast
 from typing import List, Optional
 
 from .. import AnalysisError
-from ..paths import U, describe_path, is_S, walk_shared
+from ..paths import U, describe_path, is_S, strip_tags, walk_shared
 from ..report import Finding, RuleResult
-from .common import calls_in, is_param, kwarg, source_params
+from .common import calls_in, is_param, kwarg, source_params, step_calls
 
 FNS = "numpoly.baseclass.FeatureNotSupported"
 ISCONSTANT = {"numpoly.poly_function.isconstant.isconstant", "numpoly.baseclass.ndpoly.isconstant"}
@@ -176,6 +176,108 @@ def run_stable(ctx) -> RuleResult:
     return result
 
 
+def run_glex(ctx) -> RuleResult:
+    result = RuleResult(
+        "R-GLEX",
+        "glexsort: numpy.lexsort receives the keys promoted to 2-D (one row per key); with reverse the ROWS of "
+        "that 2-D array are reversed (key priority), never the elements of a 1-D key or the columns",
+    )
+    modname = "numpoly.utils.glexsort"
+    module = ctx.repo.module(modname)
+    func = ctx.repo.function(modname, "glexsort")
+    params = [a.arg for a in func.args.args]
+    if "reverse" not in params:
+        raise AnalysisError("glexsort has no 'reverse' parameter (anchor changed)")
+    n = 0
+    for path in ctx.paths_auto(module, func):
+        polarity = None
+        for step in path:
+            if step.kind == "assume":
+                test = step.expand(step.node)
+                neg = False
+                while isinstance(test, ast.UnaryOp) and isinstance(test.op, ast.Not):
+                    neg, test = not neg, test.operand
+                if is_param(test, "reverse"):
+                    polarity = bool(step.data) != neg
+        lex = None
+        for step in path:
+            for call in step_calls(step):
+                if ctx.dotted(module, call.func) == "numpy.lexsort" and call.args:
+                    lex = (step, step.expand(call.args[0]))
+        if lex is None or polarity is None:
+            continue
+        step, arg = lex
+        n += 1
+        verdict, why = _row_reversal(ctx, module, arg, polarity)
+        if verdict is None:
+            raise AnalysisError(f"glexsort: lexsort argument not recognised: {U(strip_tags(arg))[:100]}")
+        result.ob(f"glexsort(reverse={polarity}): lexsort gets the 2-D keys" + (" with rows reversed" if polarity else ""),
+                  verdict, module.loc(step.orig), U(strip_tags(arg))[:100])
+        if not verdict:
+            result.add(Finding(
+                "R-GLEX", module, "glexsort", step.node,
+                f"with reverse={polarity} numpy.lexsort receives {U(strip_tags(arg))[:80]}: {why}",
+                derivation=describe_path(path), construct=f"glexsort: lexsort argument (reverse={polarity})"))
+    if n < 2:
+        raise AnalysisError(f"glexsort: only {n} lexsort paths recognised (expected reverse and not reverse)")
+    result.floor = 2
+    return result
+
+
+def _row_reversal(ctx, module, arg, reverse):
+    """(ok, why) for the lexsort argument."""
+    def has_2d(node):
+        return any(isinstance(n, ast.Call) and not is_S(n) and (ctx.dotted(module, n.func) or "") in
+                   ("numpy.atleast_2d",) for n in walk_shared(node))
+
+    def reversal(node):
+        """('rows'|'cols'|'flat', inner) if node is a reversal of inner else None"""
+        if isinstance(node, ast.Subscript):
+            sl = node.slice
+            def is_rev(x):
+                return isinstance(x, ast.Slice) and x.lower is None and x.upper is None and isinstance(x.step, ast.UnaryOp) \
+                    and isinstance(x.step.op, ast.USub) and isinstance(x.step.operand, ast.Constant) and x.step.operand.value == 1
+            if is_rev(sl):
+                return "rows", node.value
+            if isinstance(sl, ast.Tuple) and len(sl.elts) == 2:
+                if is_rev(sl.elts[0]) and isinstance(sl.elts[1], ast.Slice) and not is_rev(sl.elts[1]):
+                    return "rows", node.value
+                if is_rev(sl.elts[1]):
+                    return "cols", node.value
+        if isinstance(node, ast.Call) and not is_S(node):
+            name = ctx.dotted(module, node.func) or ""
+            if name == "numpy.flipud" and node.args:
+                return "rows", node.args[0]
+            if name == "numpy.fliplr" and node.args:
+                return "cols", node.args[0]
+            if name == "numpy.flip" and node.args:
+                axis = kwarg(node, "axis") or (node.args[1] if len(node.args) > 1 else None)
+                if isinstance(axis, ast.Constant) and axis.value == 0:
+                    return "rows", node.args[0]
+                return "cols", node.args[0]
+        return None
+
+    rev = reversal(arg)
+    any_rev = any(reversal(n) is not None for n in walk_shared(arg))
+    if not reverse:
+        if any_rev:
+            return False, "the keys are reversed although reverse is false"
+        return (True, "") if has_2d(arg) else (None, "")
+    if rev is None:
+        if not any_rev:
+            return False, "the key rows are not reversed although reverse is true"
+        # reversal somewhere inside, e.g. atleast_2d(keys[::-1])
+        return False, "the reversal is applied before the keys are promoted to 2-D: a single 1-D key has its " \
+                      "elements reversed instead of its (only) row, so the permutation indexes the wrong positions"
+    kind, inner = rev
+    if kind == "cols":
+        return False, "the columns (elements) are reversed, not the key rows"
+    if has_2d(inner):
+        return True, ""
+    return False, "the reversal is applied before the keys are promoted to 2-D: a single 1-D key has its " \
+                  "elements reversed instead of its (only) row, so the permutation indexes the wrong positions"
+
+
 # ---------------------------------------------------------------------------
 # R-GUARDS
 
@@ -300,7 +402,27 @@ def run_guards(ctx) -> RuleResult:
                 result.add(Finding("R-GUARDS", module, "tonumpy", last.node,
                                    "tonumpy returns an array for a polynomial not established to be constant",
                                    derivation=trace))
-        elif last.kind == "raise" and any(pol is False for _, pol in tests):
+        if last.kind == "return" and last.node.value is not None:
+            # the coefficient column handed back is the one of the all-zero exponent row
+            value = last.expand(last.node.value)
+            for sub in walk_shared(value):
+                if isinstance(sub, ast.Subscript) and isinstance(sub.value, ast.Attribute) and sub.value.attr == "coefficients":
+                    idx = sub.slice
+                    text = U(strip_tags(idx))
+                    if isinstance(idx, ast.Constant) and isinstance(idx.value, int):
+                        verdict = False
+                    elif ".exponents" in text or ".keys" in text:
+                        verdict = True
+                    else:
+                        raise AnalysisError(f"tonumpy: index of the returned coefficient column not recognised: {text[:80]}")
+                    result.ob("tonumpy returns the coefficient of the all-zero exponent row", verdict, module.loc(last.orig), text[:80])
+                    if not verdict:
+                        result.add(Finding(
+                            "R-GUARDS", module, "tonumpy", last.node,
+                            f"tonumpy returns coefficient column {text}: the constant term is assumed to be stored at a fixed "
+                            f"position, but a constant polynomial may carry all-zero non-constant terms before it "
+                            f"(retain_coefficients=True, hand-built storage)", construct="tonumpy: coefficient index"))
+        if last.kind == "raise" and any(pol is False for _, pol in tests):
             ok = _raises(ctx, module, path, FNS)
             n_raise += 1
             result.ob("tonumpy raises FeatureNotSupported for non-constants", ok, module.loc(last.orig), "")
